@@ -313,7 +313,8 @@ Lemma req_tags_app a b : req_tags (a ++ b) = req_tags a ++ req_tags b.
 Proof. unfold req_tags. rewrite map_app, concat_app. reflexivity. Qed.
 
 Definition only_next (s s' : proc) : Prop :=
-  same_acct s s' /\ same_runs s s' /\ p_objs s' = p_objs s /\ p_ubuf s' = p_ubuf s /\ p_groups s' = p_groups s.
+  same_acct s s' /\ same_runs s s' /\ p_objs s' = p_objs s /\ p_ubuf s' = p_ubuf s /\ p_groups s' = p_groups s /\
+  p_apps s' = p_apps s /\ p_conns s' = p_conns s /\ p_now s' = p_now s /\ p_quit s' = p_quit s.
 
 Lemma only_next_refl s : only_next s s.
 Proof. repeat split. Qed.
